@@ -176,6 +176,14 @@ func (x *Exec) evalSpec(sc *specCtx, e ast.Expr) Value {
 		}
 		return sc.load(p)
 	case *ast.UnaryExpr:
+		if e.Op == token.AND {
+			// &x.f: the address of a field / variable (for "the receiver of that call is this very field")
+			p, ok := x.evalAddr(sc, e.X)
+			if !ok {
+				return PoisonV{} // not addressable on this path (e.g. the variable does not exist yet)
+			}
+			return p
+		}
 		v := x.evalSpec(sc, e.X)
 		if _, ok := v.(PoisonV); ok {
 			return v
